@@ -750,3 +750,11 @@ Proof.
   - split; [unfold WF; cbn; lia|right; reflexivity].
   - repeat constructor.
 Qed.
+
+Lemma full_property_partial_lemma : forall x, obj_ok x ->
+  exists y, (fun j => match deserialise_object j with Ok y => Some y | Err _ => None end) (to_dict x) = Some y /\
+    observe y = observe x.
+Proof.
+  intros x Hok. destruct (roundtrip_via_registry_lemma x Hok) as (y & Hd & Ho).
+  exists y. cbv beta. rewrite Hd. split; [reflexivity|exact Ho].
+Qed.
